@@ -39,7 +39,7 @@ CHECKS += [
     {
         "property_id": "C08", "engine": "crosshair", "category": "model_checking",
         "technique": "CrossHair symbolic execution (z3) of the real Circuit API with symbolic sizes, modes, herald positions, flags and (in)valid value indices",
-        "text": "26 conditions (quick) confirmed over all paths within the pre: bounds: adding a circuit (4 argument kinds, parents with/without an earlier heralded sub-circuit, any placement, both group flags, once or twice) leaves the argument's observable state unchanged; later edits of an added circuit leave the parent unchanged; copies are independent both ways; a + b keeps operands; Simulator, Sampler (distribution and all sampling calls), QuickSampler, Analyzer and Reck().map (default and noisy error model) leave the circuit and the input state unchanged (structure chosen by the solver, consumer run concretely); each construction method (bs, ps, loss, barrier, mode_swaps, herald, add) that raises leaves the circuit exactly as it was.",
+        "text": "27 conditions (quick) confirmed over all paths within the pre: bounds: adding a circuit (4 argument kinds, parents with/without an earlier heralded sub-circuit, any placement, both group flags, once or twice) leaves the argument's observable state unchanged; later edits of an added circuit leave the parent unchanged; copies are independent both ways; a + b keeps operands; Simulator, Sampler (distribution and all sampling calls), QuickSampler, Analyzer and Reck().map (default and noisy error model) leave the circuit and the input state unchanged (structure chosen by the solver, consumer run concretely); each construction method (bs, ps, loss, barrier, mode_swaps, herald, add) that raises leaves the circuit exactly as it was.",
         "design_ref": "DESIGN.md section 4 C08", "note": XH_NOTE,
     },
 ]
@@ -165,7 +165,7 @@ CHECKS += [
     {
         "property_id": "C19", "engine": "crosshair", "category": "exploration",
         "technique": "CrossHair (z3) chooses circuit structure and display options within stated integer bounds; the drawing code runs on the realised values and must return a drawing without raising and leave the circuit unchanged",
-        "text": "Bounded structural exploration driven by the solver's choice of integers: 26 conditions over circuit size, component kind (8 kinds incl. labelled/unlabelled parameters, loss, barriers, unitary blocks), mode placement, herald in/out positions, heralded 3-mode groups at any position (flat or nested in a named group, followed by further components), loss display, parameter values, label-list length (also with a herald set directly on the circuit) and display type; both back ends. Every configuration within the bounds returns a drawing (or DisplayError exactly for a wrong label count or unknown type) and leaves the circuit's observable state unchanged. This is the weakest claim of the set: exception-freedom is a property of program structure and the numeric label formatting cannot be encoded.",
+        "text": "Bounded structural exploration driven by the solver's choice of integers: 27 conditions over circuit size, component kind (8 kinds incl. labelled/unlabelled parameters, loss, barriers, unitary blocks), mode placement, herald in/out positions, heralded 3-mode groups at any position (flat or nested in a named group, followed by further components), loss display, parameter values, label-list length (also with a herald set directly on the circuit) and display type; both back ends. Every configuration within the bounds returns a drawing (or DisplayError exactly for a wrong label count or unknown type) and leaves the circuit's observable state unchanged. This is the weakest claim of the set: exception-freedom is a property of program structure and the numeric label formatting cannot be encoded.",
         "design_ref": "DESIGN.md section 4 C19", "note": XH_NOTE + " The library's multimethod dispatch cannot be traced by CrossHair, so values are realised before the drawing call (the exploration is then an exhaustive solver-driven enumeration of the bounded integer space).",
     },
 ]
